@@ -21,6 +21,8 @@ type c07Case struct {
 	QLay    Layout  `json:"q_layout"`
 	TLay    Layout  `json:"t_layout"`
 	Threads int     `json:"threads"`
+	// spelling of --measure for an additional run of the binary ("" = none): the command line accepts any letter case
+	CLIMeasure string `json:"cli_measure,omitempty"`
 }
 
 func fmtDist(measure string, d float64) string {
@@ -31,8 +33,11 @@ func fmtDist(measure string, d float64) string {
 }
 
 // runClosestTable returns dist[q][t] as printed strings, using -n <#targets> --table.
+var lastClosestTableText string // raw text of the last in-process table run (shards run their cases one after another)
+
 func runClosestTable(queries, targets []FaRec, ql, tl Layout, measure string, threads int) (map[string]map[string]string, error) {
 	var out bytes.Buffer
+	defer func() { lastClosestTableText = out.String() }()
 	qt, tt := renderFasta(queries, ql), renderFasta(targets, tl)
 	if err := mustRun("closest.ClosestN(table)", func() error {
 		return closest.ClosestN(len(targets), -1.0, strings.NewReader(qt), strings.NewReader(tt), measure, &out, true, threads)
@@ -67,6 +72,19 @@ func checkC07(c c07Case, o *Obs) error {
 	tab, err := runClosestTable(c.Queries, c.Targets, c.QLay, c.TLay, c.Measure, c.Threads)
 	if err != nil {
 		return err
+	}
+	libText := lastClosestTableText
+	if c.CLIMeasure != "" && gofastaBin() != "" {
+		// the same table through the command line, --measure spelled in the drawn letter case; compared with the library
+		// output, which the rest of this check holds against the definitions
+		dir, cleanup := caseDir("c07cli")
+		err := cliAgree(o, "closest", libText, "closest", "--query", writeFile(dir, "q.fa", renderFasta(c.Queries, c.QLay)), "--target", writeFile(dir, "t.fa", renderFasta(c.Targets, c.TLay)),
+			"-m", c.CLIMeasure, "-n", strconv.Itoa(len(c.Targets)), "--table", "-t", strconv.Itoa(c.Threads))
+		cleanup()
+		if err != nil {
+			return err
+		}
+		o.LabelIf(c.CLIMeasure != c.Measure, "cli-arm:measure-in-other-letter-case")
 	}
 	o.Label("measure:" + c.Measure)
 	o.LabelIf(sharesName(c.Queries, c.Targets), "query-named-like-a-target")
@@ -365,6 +383,9 @@ func genC07(t *rapid.T) c07Case {
 		c.TLay.Width = rapid.SampledFrom([]int{0, 60, 64, 70, 80, 64}).Draw(t, "wideWrap")
 	}
 	shareNames(t, c.Queries, c.Targets)
+	if rapid.IntRange(0, 19).Draw(t, "cli") == 0 && w <= 20000 {
+		c.CLIMeasure = rapid.SampledFrom([]string{c.Measure, strings.ToUpper(c.Measure), strings.ToUpper(c.Measure[:1]) + c.Measure[1:]}).Draw(t, "cliMeasure")
+	}
 	return c
 }
 
